@@ -14,7 +14,7 @@ variable {α : Type}
 def loopCalls (o : Ops α) (off : α) (dashes : List α) (m : Mat α) : Style α → List (PathRef α) → List (Call α)
   | _, [] => []
   | style, p :: ps =>
-    let r := o.checkDash off dashes p.len
+    let r := drawDashes o style.width off dashes p.len
     let style' := { style with dashes := r.1, stroke := if r.2 then style.stroke else Paint.none }
     ⟨.path p style', m⟩ :: loopCalls o off dashes m style ps
 
